@@ -71,6 +71,11 @@ fn via_api(kind: &str, s: &str) -> bool {
             let mut buf = Vec::new();
             let m = rustbus::wire::marshal::marshal(&msg, NonZeroU32::new(1).unwrap(), &mut buf).is_ok();
             assert_eq!(w, m, "ObjectPath::new and marshal disagree on {:?}", s);
+            if m {
+                // what the send side put into the PATH header field is accepted by the receive side and comes out unchanged
+                let d = vcore::peer::decode_frame(&buf);
+                assert!(d.as_ref().map(|x| x.dynheader.object.as_deref() == Some(s)).unwrap_or(false), "a message with the valid object path {:?} ({} bytes) in its PATH header field is not decoded: {:?}", s, s.len(), d.as_ref().map(|x| x.dynheader.object.clone()));
+            }
             // every other place that takes or hands out an object path: the Param API (owned and borrowed
             // variant), and the three decoders on a hand-written encoding of the string as an 'o'
             use rustbus::params::{Base, Param};
@@ -104,12 +109,22 @@ fn via_api(kind: &str, s: &str) -> bool {
         "iface" => {
             msg.dynheader.interface = Some(s.to_string());
             let mut buf = Vec::new();
-            rustbus::wire::marshal::marshal(&msg, NonZeroU32::new(1).unwrap(), &mut buf).is_ok()
+            let ok = rustbus::wire::marshal::marshal(&msg, NonZeroU32::new(1).unwrap(), &mut buf).is_ok();
+            if ok {
+                let d = vcore::peer::decode_frame(&buf);
+                assert!(d.as_ref().map(|x| x.dynheader.interface.as_deref() == Some(s)).unwrap_or(false), "the receive side does not accept the interface name {:?} the send side emitted", s);
+            }
+            ok
         }
         "errname" => {
             msg.dynheader.error_name = Some(s.to_string());
             let mut buf = Vec::new();
-            rustbus::wire::marshal::marshal(&msg, NonZeroU32::new(1).unwrap(), &mut buf).is_ok()
+            let ok = rustbus::wire::marshal::marshal(&msg, NonZeroU32::new(1).unwrap(), &mut buf).is_ok();
+            if ok {
+                let d = vcore::peer::decode_frame(&buf);
+                assert!(d.as_ref().map(|x| x.dynheader.error_name.as_deref() == Some(s)).unwrap_or(false), "the receive side does not accept the error name {:?} the send side emitted", s);
+            }
+            ok
         }
         "bus" => {
             let mut m2: MarshalledMessage = MessageBuilder::new().signal("a.b", "M", "/").build();
@@ -120,12 +135,21 @@ fn via_api(kind: &str, s: &str) -> bool {
             buf.clear();
             let b = rustbus::wire::marshal::marshal(&m2, NonZeroU32::new(1).unwrap(), &mut buf).is_ok();
             assert_eq!(a, b, "destination and sender checks disagree on {:?}", s);
+            if b {
+                let d = vcore::peer::decode_frame(&buf);
+                assert!(d.as_ref().map(|x| x.dynheader.sender.as_deref() == Some(s)).unwrap_or(false), "the receive side does not accept the bus name {:?} the send side emitted", s);
+            }
             a
         }
         "member" => {
             msg.dynheader.member = Some(s.to_string());
             let mut buf = Vec::new();
-            rustbus::wire::marshal::marshal(&msg, NonZeroU32::new(1).unwrap(), &mut buf).is_ok()
+            let ok = rustbus::wire::marshal::marshal(&msg, NonZeroU32::new(1).unwrap(), &mut buf).is_ok();
+            if ok {
+                let d = vcore::peer::decode_frame(&buf);
+                assert!(d.as_ref().map(|x| x.dynheader.member.as_deref() == Some(s)).unwrap_or(false), "the receive side does not accept the member name {:?} the send side emitted", s);
+            }
+            ok
         }
         _ => unreachable!(),
     }
